@@ -1271,7 +1271,7 @@ fn sgr_face(data: &[u8]) -> FaceModify {
             }
             // bold
             Some(1) => face.bold = Some(true),
-            Some(21) => face.bold = Some(false),
+            Some(21) | Some(22) => face.bold = Some(false),
             // italic
             Some(3) => face.italic = Some(true),
             Some(23) => face.italic = Some(false),
